@@ -407,7 +407,7 @@ func (e *Engine) Execute(p *sim.Plan, keepLog bool) (res *sim.RunResult) {
 			}
 			fw, _ := mw.CreateFormFile(name, "f.gif")
 			// what the handler's content sniffing takes for an image, different for every request
-			content := []byte("GIF89a uploaded " + st.S + fmt.Sprint(st.Id))
+			content := []byte(fmt.Sprintf("GIF89a uploaded %q #%d", st.S, st.Id))
 			_, _ = fw.Write(content)
 			_ = mw.Close()
 			blobHash := fmt.Sprintf("%x", sha1.Sum(append([]byte(fmt.Sprintf("blob %d\x00", len(content))), content...)))
@@ -477,7 +477,7 @@ func (e *Engine) Execute(p *sim.Plan, keepLog bool) (res *sim.RunResult) {
 			sort.Strings(changed)
 			if !ok {
 				res.Probes["auth_mutation_refused"]++
-				if exp != nil && !strings.Contains(raw, "no label added or removed") {
+				if exp != nil && exp.refuse == "" && !strings.Contains(raw, "no label added or removed") {
 					// valid arguments, a user attached: the requested change must be recorded
 					add("wrong-change", "mutation %s (%s) with valid arguments and an authenticated user was refused: %s", m.Name, args, sim.Trunc(raw, 300))
 				}
@@ -487,6 +487,10 @@ func (e *Engine) Execute(p *sim.Plan, keepLog bool) (res *sim.RunResult) {
 				continue
 			}
 			authOk++
+			if exp != nil && exp.refuse != "" {
+				add("wrong-change", "mutation %s (%s) was accepted although %s (%d bugs changed)", m.Name, args, exp.refuse, len(changed))
+				continue
+			}
 			if len(changed) != 1 {
 				add("collateral-change", "mutation %s (%s) changed %d bugs: %v", m.Name, args, len(changed), changed)
 				continue
@@ -581,6 +585,7 @@ func (e *Engine) Execute(p *sim.Plan, keepLog bool) (res *sim.RunResult) {
 }
 
 type expectation struct {
+	refuse string // non-empty: the arguments name no target, the request must be refused
 	bug   string
 	types []int
 	check func(k int, o model.RawOp) string
@@ -594,6 +599,7 @@ func (x *world) buildArgs(m mutationInfo, st *sim.Step, valid bool) (string, *ex
 	title := "title " + st.S
 	message := "message " + st.S
 	added := []string{"api-label", "l" + fmt.Sprint(st.A%3)}
+	targeted, targetMatches, targetOp := false, 0, ""
 	for _, f := range m.Fields {
 		var v string
 		switch {
@@ -614,18 +620,35 @@ func (x *world) buildArgs(m mutationInfo, st *sim.Step, valid bool) (string, *ex
 				v = gqlString([]string{"zzzzzz", "", bug[:8] + "q"}[st.A%3])
 			}
 		case f.Name == "targetPrefix":
-			// the combined id of the creation comment of the bug
+			// a prefix of the combined id of one comment of the bug, of a drawn length: what it
+			// addresses is decided by counting the comments of the whole repository it matches
 			comb := ""
 			if bc, err := x.rc.Bugs().Resolve(entity.Id(bug)); err == nil {
 				if cs := bc.Snapshot().Comments; len(cs) > 0 {
 					comb = string(cs[st.A%len(cs)].CombinedId())
 				}
 			}
-			if valid && comb != "" {
-				v = gqlString(comb[:20])
-			} else {
-				v = gqlString("ffffffff")
+			pfx := "ffffffff"
+			if comb != "" {
+				if valid {
+					pfx = comb[:[]int{20, 20, 64, 12, 3}[st.N/7%5]]
+				} else {
+					pfx = []string{"ffffffff", comb[:1], comb[:2], ""}[st.A%4]
+				}
 			}
+			targetMatches, targetOp = 0, ""
+			for _, id := range x.rc.Bugs().AllIds() {
+				if bc, err := x.rc.Bugs().Resolve(id); err == nil {
+					for _, c := range bc.Snapshot().Comments {
+						if strings.HasPrefix(string(c.CombinedId()), pfx) {
+							targetMatches++
+							targetOp = string(c.TargetId())
+						}
+					}
+				}
+			}
+			targeted = true
+			v = gqlString(pfx)
 		case f.Name == "title":
 			if valid {
 				v = gqlString(title)
@@ -664,6 +687,11 @@ func (x *world) buildArgs(m mutationInfo, st *sim.Step, valid bool) (string, *ex
 		parts = append(parts, f.Name+": "+v)
 	}
 	args := strings.Join(parts, ", ")
+	if targeted && targetMatches != 1 {
+		// a prefix that matches several comments (or none) names no comment: whatever an accepted
+		// request records is a change nobody requested
+		return args, &expectation{refuse: fmt.Sprintf("its comment prefix matches %d comments", targetMatches)}
+	}
 	if !valid {
 		return args, nil
 	}
@@ -707,6 +735,9 @@ func (x *world) buildArgs(m mutationInfo, st *sim.Step, valid bool) (string, *ex
 		exp.check = func(k int, o model.RawOp) string {
 			if o.F.Message != message {
 				return fmt.Sprintf("edit stored as %q, requested %q", o.F.Message, message)
+			}
+			if o.F.Target != targetOp {
+				return fmt.Sprintf("the edit targets comment %.7s, the prefix addresses comment %.7s", o.F.Target, targetOp)
 			}
 			return ""
 		}
